@@ -325,7 +325,12 @@ def labels_and_project(repo: Repo, rep, P: str):
     from ..packed import subst_locals
     proj_loads = []
     map_loads = []
-    for mname, mfn in mm.methods.items():
+    from .. import inline as _inl
+    for mname, mfn0 in mm.methods.items():
+        try:
+            mfn = _inl.normalize(repo, mm, getattr(mm.methods, "raw", mm.methods)[mname] if hasattr(mm.methods, "raw") else mfn0, aliases=True)
+        except Exception:
+            mfn = mfn0
         for n in walk_no_nested(mfn):
             if isinstance(n, ast.Assign) and any(norm(t) == "self.project" for t in n.targets) and isinstance(n.value, ast.Call) \
                     and norm(n.value.func) == "read_sunvox_file" and mname != "__init__":
@@ -336,7 +341,14 @@ def labels_and_project(repo: Repo, rep, P: str):
     if proj_loads and tgt0 == "project":
         mname, mfn, n = proj_loads[0]
         arg = norm(subst_locals(mfn, n.value.args[0])) if n.value.args else ""
-        if arg.replace("io.", "") == "BytesIO(chunk.chdt)":
+        cpar = next((a.arg for a in mfn.args.args if a.arg != "self"), "chunk")
+        # with BytesIO(chunk.chdt) as stream: … read_sunvox_file(stream)
+        for w_ in ast.walk(mfn):
+            if isinstance(w_, ast.With):
+                for it_ in w_.items:
+                    if isinstance(it_.optional_vars, ast.Name) and it_.optional_vars.id == arg and any(n is x for x in ast.walk(w_)):
+                        arg = norm(subst_locals(mfn, it_.context_expr))
+        if arg.replace("io.", "") == f"BytesIO({cpar}.chdt)":
             rep.ok(f"{P}.R2", f"{rel}:MetaModule.{mname}", "self.project = read_sunvox_file(BytesIO(chunk.chdt))", "nested load through the guarded entry (any depth)")
         else:
             rep.inconclusive(f"{P}.R2", f"{rel}:MetaModule.{mname}", norm(n), "the source of the nested load is not BytesIO(chunk.chdt)", f"{rel}:{n.lineno}")
@@ -346,8 +358,9 @@ def labels_and_project(repo: Repo, rep, P: str):
     tgt1, _ = chnm.reader_target(repo, mm, 1)
     if map_loads and tgt1 == "mappings":
         mname, mfn, n = map_loads[0]
-        resets = [c for c in walk_no_nested(mfn) if isinstance(c, ast.Call) and norm(c.func) == "self.mappings.reset" and c.lineno <= n.lineno]
-        if norm(n.value) == "chunk.chdt" and resets:
+        resets = [c for c in walk_no_nested(mfn) if isinstance(c, ast.Call) and norm(c.func) == "self.mappings.reset" and _inl.pos(c) <= _inl.pos(n)]
+        cpar = next((a.arg for a in mfn.args.args if a.arg != "self"), "chunk")
+        if norm(n.value) == f"{cpar}.chdt" and resets:
             rep.ok(f"{P}.R2", f"{rel}:MetaModule.{mname}", "mappings.reset(); mappings.bytes = chdt")
         else:
             rep.violation(f"{P}.R2", f"{rel}:MetaModule.{mname}", norm(mfn)[:200], "mappings must be reset and loaded from chunk 1", rel)
@@ -364,17 +377,18 @@ def labels_and_project(repo: Repo, rep, P: str):
                               "mappings are MAX records of two little-endian uint16 (module, controller)", rel)
         except (KeyError, NotConst):
             rep.inconclusive(f"{P}.R2", f"{rel}:MetaModule.MappingArray", "", "constants not folded", rel)
-        mp = mm.nested.get("Mapping")
-        ev = ma.getters.get("encoded_values")
-        if mp is not None and ev is not None and "self.module, self.controller = (value[0], value[1])" in norm(mp.methods["__init__"]).replace("value[0], value[1]", "(value[0], value[1])").replace("((", "(").replace("))", ")") \
-                or (mp is not None and "self.module, self.controller = (value[0], value[1])" in norm(mp.methods["__init__"])):
-            if ev is not None and "(x.module, x.controller) for x in self.values" in norm(ev):
-                rep.ok(f"{P}.R2", f"{rel}:MetaModule.Mapping", "(module, controller) in the same order on both sides")
-            else:
-                rep.violation(f"{P}.R2", f"{rel}:MetaModule.MappingArray.encoded_values", norm(ev)[:160] if ev else "", "mapping fields are written in a different order than they are read", rel)
+        from . import c02 as _c02
+        order_w, order_r = _c02.struct_field_orders(repo, ma)
+        if order_w is None or order_r is None:
+            rep.inconclusive(f"{P}.R2", f"{rel}:MetaModule.MappingArray.encoded_values", f"writer {order_w} / reader {order_r}",
+                             "mapping record field order not recognised on one side", rel)
+        elif order_r != ["module", "controller"]:
+            rep.violation(f"{P}.R2", f"{rel}:MetaModule.Mapping", f"constructor takes {order_r}", "a mapping record is (module, controller)", rel)
+        elif order_w == order_r:
+            rep.ok(f"{P}.R2", f"{rel}:MetaModule.Mapping", "(module, controller) in the same order on both sides")
         else:
-            rep.violation(f"{P}.R2", f"{rel}:MetaModule.Mapping", norm(mp.methods["__init__"])[:160] if mp else "missing",
-                          "a mapping record is (module, controller)", rel)
+            rep.violation(f"{P}.R2", f"{rel}:MetaModule.MappingArray.encoded_values", f"written {order_w}, read {order_r}",
+                          "mapping fields are written in a different order than they are read", rel)
     # user-controller value type is the target's per-instance type (unit-dependent ranges, nested user controllers)
     user_value_type_rule(repo, rep, P, "R2")
     upd = mm.nested["MappingArray"].methods.get("update_user_defined_controllers")
